@@ -131,13 +131,11 @@ func init() {
 		var reqs, impl []string
 		var human []interface{}
 		done := 0
-		for tries := 0; done < cfg.N && tries < cfg.N*20; tries++ {
-			w, ops := genBWorld(r, false)
-			if len(ops) < 2 {
-				continue
-			}
+		// runWorld takes one world through every permutation, the odd target directory and the concurrent
+		// run; false = the world was not usable (a build failed)
+		runWorld := func(w *BWorld, ops []BOp, pr *Rng) bool {
 			c := &bCase{World: w, Ops: ops}
-			perms := permutations(len(ops), 12, r)
+			perms := permutations(len(ops), 12, pr)
 			var base bundleFingerprint
 			ok := true
 			for pi, perm := range perms {
@@ -174,7 +172,7 @@ func init() {
 				os.RemoveAll(target)
 			}
 			if !ok {
-				continue
+				return false
 			}
 			done++
 			rep.Count("worlds")
@@ -230,6 +228,26 @@ func init() {
 				rep.Count("concurrent-runs")
 			}
 			os.RemoveAll(target)
+			return true
+		}
+		// exact replay (-case): the recorded world and Add calls (an oracle failure records them in the
+		// original order, a difference in the permuted order it was found in: every order is run either
+		// way) go first
+		if rc := loadReplayedBCase(cfg, rep, "builder-order"); rc != nil {
+			s0 := len(reqs)
+			rep.BeginReplay()
+			if !runWorld(rc.World, rc.Ops, NewRng(cfg.Seed^0x5eed)) {
+				rep.Replayed.Note = "a sequential build of the recorded world fails on this tree (the lane only judges worlds whose builds succeed)"
+			}
+			rep.EndReplay(reqs[s0:]...)
+			done = 0
+		}
+		for tries := 0; done < cfg.N && tries < cfg.N*20; tries++ {
+			w, ops := genBWorld(r, false)
+			if len(ops) < 2 {
+				continue
+			}
+			runWorld(w, ops, r)
 		}
 		rep.Compare(cfg.Driver, reqs, impl, human)
 	}
